@@ -347,5 +347,5 @@ func smMintKeys(seed []byte, idx uint32) (string, [][]byte, [][]byte, bool) {
 	return smKeysetId(m), pubs, privs, true
 }
 
-func bigFrom(v int64) *big.Int { return big.NewInt(v) }
-func smBig(b []byte) *big.Int  { return new(big.Int).SetBytes(b) }
+func dvBigFrom(v int64) *big.Int { return big.NewInt(v) }
+func smBig(b []byte) *big.Int    { return new(big.Int).SetBytes(b) }
